@@ -4,6 +4,7 @@ import (
 	"fmt"
 	"go/token"
 	"go/types"
+	"reflect"
 	"sort"
 	"strings"
 
@@ -110,6 +111,8 @@ func C13(c *Ctx) {
 	c.R.Rule("C13-R3", "E3", "success implies compiled", 2)
 	c.R.Rule("C13-R4", "E6", "rejection of unknown syntax, branching type, interpreter", 3)
 	c.R.Rule("C13-R5", "E3", "loaders compile before handing a spec out", 2)
+	c.R.Rule("C13-R6", "E6", "a loader of both representations decodes each with its own decoder", 1)
+	c13Decoders(c)
 	compile := c.fn("core", "Spec", "Compile")
 	parse := c.fn("core", "Spec", "ParsePatterns")
 	asCompile := c.fn("core", "ActionSource", "Compile")
@@ -773,4 +776,144 @@ func throughVar(v ssa.Value) []ssa.Instruction {
 		}
 	}
 	return out
+}
+
+// nameDisagreements lists the fields reachable from t that the JSON decoder and the YAML decoder know under
+// different names (YAML's default name is the lower-cased field name, JSON's the field name matched without case).
+func nameDisagreements(t types.Type) []string {
+	var out []string
+	seen := map[types.Type]bool{}
+	var walk func(t types.Type, path string)
+	walk = func(t types.Type, path string) {
+		if seen[t] {
+			return
+		}
+		seen[t] = true
+		switch u := t.Underlying().(type) {
+		case *types.Pointer:
+			walk(u.Elem(), path)
+		case *types.Slice:
+			walk(u.Elem(), path)
+		case *types.Array:
+			walk(u.Elem(), path)
+		case *types.Map:
+			walk(u.Elem(), path)
+		case *types.Struct:
+			name := path
+			if n, ok := t.(*types.Named); ok {
+				name = n.Obj().Name()
+			}
+			for i := 0; i < u.NumFields(); i++ {
+				f := u.Field(i)
+				if !f.Exported() {
+					continue
+				}
+				tag := reflect.StructTag(u.Tag(i))
+				jn, yn := strings.Split(tag.Get("json"), ",")[0], strings.Split(tag.Get("yaml"), ",")[0]
+				if jn == "-" || yn == "-" {
+					continue
+				}
+				if jn == "" {
+					jn = f.Name()
+				}
+				if yn == "" {
+					yn = strings.ToLower(f.Name())
+				}
+				// yaml.v2 matches keys exactly; encoding/json matches them case-insensitively
+				if yn != jn {
+					out = append(out, fmt.Sprintf("%s.%s (JSON %q, YAML %q)", name, f.Name(), jn, yn))
+				}
+				if !f.Embedded() || true {
+					walk(f.Type(), name+"."+f.Name())
+				}
+			}
+		}
+	}
+	walk(t, "")
+	sort.Strings(out)
+	return out
+}
+
+// c13Decoders: sio.ResolveSpecSource is the loader that takes a specification in either representation (property
+// anchor "hosts load YAML or JSON and compile").  As long as the two decoders know some field of a specification
+// under different names, a JSON body has to go through encoding/json, and no body through both.
+func c13Decoders(c *Ctx) {
+	rs := c.fn("sio", "", "ResolveSpecSource")
+	if rs == nil {
+		return
+	}
+	var specT types.Type
+	if n := c.P.NamedType("core", "Spec"); n != nil {
+		specT = n
+	}
+	if specT == nil {
+		c.R.Break("C13-R6: core.Spec not found")
+		return
+	}
+	diffs := nameDisagreements(specT)
+	fns := pkgClosure(rs)
+	type dec struct {
+		in   ssa.Instruction
+		json bool
+	}
+	var decs []dec
+	for _, f := range fns {
+		ssau.Instrs(f, func(in ssa.Instruction) {
+			ci, ok := in.(ssa.CallInstruction)
+			if !ok || len(ci.Common().Args) == 0 {
+				return
+			}
+			n := ssau.CalleeName(ci)
+			isJSON := n == "encoding/json.Unmarshal" || n == "(*encoding/json.Decoder).Decode"
+			isYAML := strings.Contains(n, "yaml") && (strings.HasSuffix(n, ".Unmarshal") || strings.HasSuffix(n, ".UnmarshalStrict") || strings.HasSuffix(n, ".Decode"))
+			if !isJSON && !isYAML {
+				return
+			}
+			dst := ci.Common().Args[len(ci.Common().Args)-1]
+			if mi, ok := dst.(*ssa.MakeInterface); ok {
+				dst = mi.X
+			}
+			pt, ok := dst.Type().Underlying().(*types.Pointer)
+			if !ok || !ssau.TypeIs(pt.Elem(), prog.Abs("core"), "Spec") {
+				return
+			}
+			decs = append(decs, dec{in, isJSON})
+		})
+	}
+	if len(decs) == 0 {
+		c.R.Break("C13-R6: ResolveSpecSource never decodes a specification")
+		return
+	}
+	c.R.Fn(fname(rs))
+	if len(diffs) == 0 {
+		c.R.Discharge("C13-R6", "ResolveSpecSource: a JSON body is decoded by encoding/json", c.P.Pos(rs.Pos()), "the two decoders know every field of a specification under the same name")
+		return
+	}
+	hasJSON := false
+	var firstYAML ssa.Instruction
+	for _, d := range decs {
+		if d.json {
+			hasJSON = true
+		} else if firstYAML == nil {
+			firstYAML = d.in
+		}
+	}
+	show := diffs
+	if len(show) > 6 {
+		show = append(append([]string{}, show[:6]...), fmt.Sprintf("and %d more", len(diffs)-6))
+	}
+	at := c.P.Pos(rs.Pos())
+	if firstYAML != nil {
+		at = c.pos(firstYAML)
+	}
+	c.R.Check(hasJSON, "C13-R6", "ResolveSpecSource: a JSON body is decoded by encoding/json", at, "encoding/json decodes into the core.Spec", "every body is decoded by the YAML decoder, which does not know these fields by their JSON names and drops them silently: "+strings.Join(show, "; "))
+	both := ""
+	for _, a := range decs {
+		for _, b := range decs {
+			if a.json && !b.json && a.in.Parent() == b.in.Parent() && (flow.InstrDominates(a.in, b.in) || flow.InstrDominates(b.in, a.in)) {
+				both = c.pos(b.in)
+			}
+		}
+	}
+	c.R.Check(both == "", "C13-R6", "ResolveSpecSource: one decoder per body", at, "the JSON and the YAML decode are on different paths", "a body decoded as JSON also goes through the YAML decoder ("+both+")")
 }
